@@ -149,8 +149,7 @@ def run_case(case):
     for limit in [None] + list(range(ref.nlev + 1)):
         for header_only in (False, True):
             for maxmins in (False, True):
-                if header_only and maxmins:
-                    continue
+                # header_only + maxmins: the tables live in the level headers, which a header-only opening must not need
                 runs.append((limit, header_only, maxmins))
     # the limit as a numpy integer (what a loop over np.arange hands over): below and above the finest level
     for l in sorted({0, ref.nlev}):
